@@ -315,6 +315,11 @@ def window_arith_rule(F, chk):
     the accepted form); raw subtraction is the debit by bytes actually sent (bounded by R-C14-a) and is only counted
     as the positive control of the matcher."""
     r = chk.rule("R-C15-i", "T6", "no unchecked growth of a flow-control window", floor=2)
+    # configuration D compiles the debug_assert! post-conditions in, which restate `window == before + increment` after
+    # the checked addition succeeded; the rule is about the shipped arithmetic and is evaluated without them
+    r.only_cfgs = {"Q", "E", "T", "S", "O"}
+    if chk.cfg == "D":
+        return
     def is_win(b, o):
         pl = op_place(o)
         for _ in range(6):
